@@ -16,6 +16,8 @@
 #include <map>
 #include <set>
 #include <unistd.h>
+#include <fcntl.h>
+#include <sys/wait.h>
 
 struct Outcome {
     bool ok = true;
@@ -279,6 +281,7 @@ inline int runCampaign(const HarnessArgs& a, const std::string& name, const GenF
     // the smallest failing case found so far (already saved). Expensive harnesses (ThreadSanitizer children) set it low.
     const char* msEnv       = getenv("VERIF_MAX_SHRINK_EVALS");
     const long maxShrink    = msEnv ? atol(msEnv) : 400;
+    const bool freshConfirm = getenv("VERIF_FRESH_CONFIRM") != nullptr;
     long evalsAfterFailure  = 0;
     bool haveFailure        = false;
     bool ok = rc::check(name, [&] {
@@ -298,6 +301,32 @@ inline int runCampaign(const HarnessArgs& a, const std::string& name, const GenF
         if (std::chrono::steady_clock::now() - lastFlush > std::chrono::seconds(15)) {
             st.flush();
             lastFlush = std::chrono::steady_clock::now();
+        }
+        if (!o.ok && freshConfirm) {
+            // Deterministic harnesses: a failure must be a function of the case alone. It is re-run in a fresh process
+            // through the plain replay path; if it passes there, the failure came from state that an earlier case left
+            // behind in this process (e.g. a function-local static in the code under test) - it is counted and the
+            // campaign goes on looking for a self-contained reproducer (the driver reports such counts as inconclusive).
+            const std::string probe = a.out + "/probe_" + std::to_string(a.worker) + ".case";
+            c.save(probe);
+            fflush(nullptr);
+            pid_t pid = fork();
+            if (pid == 0) {
+                int fd = open("/dev/null", O_WRONLY);
+                if (fd >= 0) {
+                    dup2(fd, 1);
+                    dup2(fd, 2);
+                }
+                execl("/proc/self/exe", "harness", "--replay", probe.c_str(), (char*)nullptr);
+                _exit(127);
+            }
+            int status = 0;
+            waitpid(pid, &status, 0);
+            if (WIFEXITED(status) && WEXITSTATUS(status) == 0) {
+                st.counts["failures_not_reproducible_in_fresh_process"]++;
+                st.flush();
+                return;
+            }
         }
         if (!o.ok) {
             KV f = c;
